@@ -1,6 +1,6 @@
 SPECIFICATION TraceSpec
 CONSTANTS Names <- NoNames Depth = 0 Vals <- None Sep = 46 Design = "items" Base <- NoBase MaxSlots = 0
-  Strs <- None Seps <- None Asgs <- None Elems <- None
+  Ends <- None Strs <- None Seps <- None Asgs <- None Elems <- None
 INVARIANTS Refines PrefixClosed PathRefines
 PROPERTIES MapProp PathProp
 POSTCONDITION TraceAccepted
